@@ -37,6 +37,7 @@ struct MFile {
 struct Model {
     int nprocs = 1;
     bool strict_coord = false;
+    bool strict_iget_overlap = false;   // check the overlapped share of overlapping iget requests completed by one wait (known finding: kept for 10% of C02 seeds)
     std::vector<MFile> files;                 // file slots
     std::map<std::string, MFile> disk;        // closed files by path
     int opidx = 0;
